@@ -200,6 +200,29 @@ class _AttrCalls(ast.NodeTransformer):
             return a
         return node
 
+    def visit_Subscript(self, node):
+        self.generic_visit(node)
+        # N15: next(filter(lambda p: p[0] == K, M.items()), (None, None))[1]  ->  M.get(K)   (the value stored under K, or None)
+        v = node.value
+        if isinstance(node.ctx, ast.Load) and isinstance(node.slice, ast.Constant) and node.slice.value == 1 and isinstance(v, ast.Call) \
+                and isinstance(v.func, ast.Name) and v.func.id == "next" and len(v.args) == 2 and not v.keywords \
+                and isinstance(v.args[1], ast.Tuple) and len(v.args[1].elts) == 2 \
+                and all(isinstance(e, ast.Constant) and e.value is None for e in v.args[1].elts):
+            f = v.args[0]
+            if isinstance(f, ast.Call) and isinstance(f.func, ast.Name) and f.func.id == "filter" and len(f.args) == 2 and not f.keywords \
+                    and isinstance(f.args[0], ast.Lambda) and len(f.args[0].args.args) == 1 \
+                    and isinstance(f.args[1], ast.Call) and isinstance(f.args[1].func, ast.Attribute) and f.args[1].func.attr == "items" and not f.args[1].args:
+                p = f.args[0].args.args[0].arg
+                b = f.args[0].body
+                if isinstance(b, ast.Compare) and len(b.ops) == 1 and isinstance(b.ops[0], ast.Eq):
+                    sides = [b.left, b.comparators[0]]
+                    pk = [x for x in sides if isinstance(x, ast.Subscript) and isinstance(x.value, ast.Name) and x.value.id == p
+                          and isinstance(x.slice, ast.Constant) and x.slice.value == 0]
+                    ks = [x for x in sides if x not in pk]
+                    if len(pk) == 1 and len(ks) == 1 and not any(isinstance(n, ast.Name) and n.id == p for n in ast.walk(ks[0])):
+                        return ast.copy_location(ast.Call(func=ast.Attribute(value=f.args[1].func.value, attr="get", ctx=ast.Load()), args=[ks[0]], keywords=[]), node)
+        return node
+
     def visit_Call(self, node):
         self.generic_visit(node)
         if isinstance(node.func, ast.Name) and node.func.id == "getattr" and len(node.args) == 2 and not node.keywords \
